@@ -13,7 +13,7 @@ from specs.tree import mentions, binds, wf_q
 import contracts.typing_c03  # noqa: F401  (constructor contracts used at the call sites)
 import contracts.queries_c15  # noqa: F401  (contains_reference)
 import contracts.sem_lemmas  # noqa: F401
-from contracts.sem_lemmas import is_empty_test, empty_test_sem, conj_last_all
+from contracts.sem_lemmas import is_empty_test, empty_test_sem, conj_last
 from specs.typing import COMPOUND
 
 
@@ -307,9 +307,9 @@ class split_and_expr:
         return all(ok_out(c) for c in result)
 
 
-def _split_inv_hint(stack):
-    # facts about the work list at the start of an iteration (before the pop)
-    conj_last_all(stack)
+def _split_inv_hint(stack, rho):
+    # facts about the work list at the start of an iteration (before the pop); rho: any valuation
+    conj_last(stack, rho)
     valid_last(stack)
 
 
